@@ -19,6 +19,7 @@ type pinfo struct {
 	member    bool
 	loc       byte
 	readback  bool // obtained by reading the message (depth-limited), not from a constructor
+	age       int  // creation index of the underlying object (list members: of their list)
 }
 
 func parseP(s string) pinfo {
@@ -58,12 +59,14 @@ func (p *prog) do(op string) string {
 	if len(p.s.Handles) > before {
 		pi := parseP(res)
 		pi.loc = p.s.Loc[before]
+		pi.age = before
 		name := op[:strings.IndexByte(op+":", ':')]
 		switch name {
 		case "root", "sptr", "plat":
 			pi.readback = true
 		case "lstruct":
-			pi.readback = p.infos[atoi(strings.Split(op, ":")[1])].readback
+			parent := p.infos[atoi(strings.Split(op, ":")[1])]
+			pi.readback, pi.age = parent.readback, parent.age
 		}
 		p.infos = append(p.infos, pi)
 	}
@@ -325,7 +328,7 @@ func (p *prog) dataSet(loc byte) {
 }
 
 // allowCycle: the destination's traversal limit is small enough to stop a runaway copy
-func (p *prog) allowReadback() bool { return p.h.T != 0 && p.h.T <= 1<<16 }
+func (p *prog) allowReadback() bool { return p.h.T != 0 && p.h.T <= 4096 }
 
 func (p *prog) srcFilter(pi pinfo) bool {
 	if pi.kind < 0 {
@@ -354,7 +357,7 @@ func (p *prog) ptrSet() {
 		// without a small traversal limit keep the object graph acyclic: containers are older
 		return true
 	}
-	acyclic := func(h int) bool { return p.allowReadback() || h < hs || src.loc == 's' }
+	acyclic := func(h int) bool { return p.allowReadback() || p.infos[h].age < src.age || src.loc == 's' }
 	switch r.Pick(6, 3, 2, 1, 1) {
 	case 0:
 		h := p.pick(func(pi pinfo) bool { return dstOK(pi) && pi.kind == 0 && pi.pc > 0 })
@@ -571,7 +574,7 @@ func genSource(r *Rand, st *genStats) *rd.Msg {
 
 // genAdaptive generates one adaptive program. copyHeavy: C16 emphasis.
 func genAdaptive(r *Rand, st *genStats, copyHeavy bool) *prog {
-	h := &Header{Arena: genArena(r), T: limitsT[r.Intn(len(limitsT))], D: limitsD[r.Intn(len(limitsD))], Fuel: 30000}
+	h := &Header{Arena: genArena(r), T: limitsT[r.Intn(len(limitsT))], D: limitsD[r.Intn(len(limitsD))], Fuel: 3000}
 	if copyHeavy || r.Intn(3) == 0 {
 		h.Src = genSource(r, st)
 		h.NCaps = r.Intn(4)
